@@ -150,4 +150,5 @@ def explain(path):
 
 
 def thorough_extras(pid):
-    return 0
+    import selftest
+    return selftest.run(pid)
